@@ -67,6 +67,14 @@ def gen_cases(rng, tier):
     xs, ys = gen_data(rng, nrows)
     cases.append({"kind": "reader", "x": xs, "y": ys, "seed": rng.randrange(1 << 30), "final_newline": bool(k % 2), "crlf": k % 4 >= 2,
                   "shuffle": k % 3 == 0, "comments": k % 5 == 0})
+  # data of extreme magnitude (x and y scaled by powers of ten up to 1e+-160; each harmless alone): the interpolant between
+  # two rows is still the straight line between them
+  for k, (ex, ey) in enumerate([(160, 160), (-170, -170), (156, 158), (-166, -168), (150, 150), (160, 140), (-150, -150), (-160, -140), (150, -150), (-150, 150), (100, 200), (-100, -200), (0, 300), (0, -300)]):
+    xs, ys = gen_data(rng, rng.choice([3, 5, 8]))
+    xs = [x * 10.0 ** ex for x in xs]
+    ys = [y * 10.0 ** ey for y in ys]
+    cases.append({"kind": "reader", "x": xs, "y": ys, "seed": rng.randrange(1 << 30), "final_newline": bool(k % 2), "crlf": False, "shuffle": k % 3 == 0,
+                  "comments": False, "spellings": False, "magnitude": "x1e%d_y1e%d" % (ex, ey)})
   # a sweep over step counts (everything small, m*10^k, 2^k, 5000 m, each with neighbours), all four plot entry points
   szs = [z for z in spec.edge_sizes(tier, lo=1) if z <= (5001 if tier == "quick" else 40001)]
   for k, z in enumerate(szs):
@@ -206,6 +214,8 @@ def run_reader(case, ctx):
   text = nl.join(lines) + (nl if case["final_newline"] else "")
   for sp_ in spellings:
     ctx.cls("numeral:" + sp_)
+  if case.get("magnitude"):
+    ctx.cls("reader_extreme_magnitudes")
   ctx.cls("final_newline" if case["final_newline"] else "no_final_newline")
   ctx.cls("crlf" if case["crlf"] else "lf")
   ctx.cls("shuffled" if case["shuffle"] else "sorted")
@@ -230,14 +240,16 @@ def run_reader(case, ctx):
     for t in (0.25, 0.5, 0.9):
       q = a + (c - a) * t
       v = f(q)
-      want = b + (d - b) * (q - a) / (c - a)
+      from fractions import Fraction as Fr
+      want = float(Fr(b) + (Fr(d) - Fr(b)) * (Fr(q) - Fr(a)) / (Fr(c) - Fr(a)))      # exact: no overflow / underflow on the way
       ctx.count("reader_points")
       lo, hi = min(b, d), max(b, d)
       tol = 1e-9 * (abs(lo) + abs(hi) + 1e-300)
       if not (lo - tol <= v <= hi + tol) or abs(v - want) > 1e-9 * max(abs(b), abs(d), 1e-300):
         ctx.violation("reader_interpolation", "TableReader(%r) = %r, linear interpolant between (%r,%r) and (%r,%r) is %r" % (q, v, a, b, c, d, want), what="reader_interpolation")
         return
-  for q in (xs[0] - 1.0, xs[-1] + 1.0, math.nextafter(xs[0], -math.inf), math.nextafter(xs[-1], math.inf)):
+  span = max(1.0, abs(xs[0]) * 1e-9, abs(xs[-1]) * 1e-9)      # (x +- 1.0 is x itself for huge x)
+  for q in (xs[0] - span, xs[-1] + span, math.nextafter(xs[0], -math.inf), math.nextafter(xs[-1], math.inf)):
     if f(q) != 0.0:
       ctx.violation("reader_outside", "TableReader(%r) = %r outside [%r, %r]" % (q, f(q), xs[0], xs[-1]), what="reader_outside")
       return
